@@ -19,9 +19,11 @@ structure Shape where
   killAfterEveryRound : Bool := true   -- `kill_pid_queue()` follows every `run_parallel_tests()` unconditionally
   killOnError : Bool := true           -- the handler for exceptions other than KeyboardInterrupt calls `kill_pid_queue()`
   killOnInterrupt : Bool := true
+  setupBeforeRoot : Bool := true       -- between `create_root()` and the `try` only the statistics are started: whatever can
+                                       -- fail while the pass is set up (the key reader) comes before the root exists
 deriving Repr, DecidableEq
 
-inductive PassExit | gated | zeroSize | normal | cviseError | foreign | interrupt
+inductive PassExit | gated | zeroSize | normal | cviseError | foreign | interrupt | setupFails
 deriving Repr, DecidableEq
 
 /-- is the pass root still on disk after `run_pass` left through this exit -/
@@ -32,6 +34,7 @@ def rootLeft (sh : Shape) (saveTemps : Bool) : PassExit → Bool
   | .cviseError => saveTemps || !sh.removeRootOnError
   | .foreign => saveTemps || !sh.removeRootOnError
   | .interrupt => saveTemps || !sh.removeRootOnInterrupt
+  | .setupFails => !sh.setupBeforeRoot                     -- raised outside the `try`: no handler removes anything
 
 /-- can a test script announced as started (and its children) still be running after `run_pass` left through this exit?
     Workers are torn down with the pool; the scripts they started are only reached by `kill_pid_queue()` -/
@@ -42,6 +45,7 @@ def scriptsLeft (sh : Shape) : PassExit → Bool
   | .cviseError => !sh.killOnError
   | .foreign => !sh.killOnError
   | .interrupt => !sh.killOnInterrupt
+  | .setupFails => false                             -- nothing was started yet
 
 /-- candidate directories outlive the pass only if the root does (they live inside it) or they were moved out on purpose
     (`cvise_extra_*`, which is in the working directory, not under TMPDIR) -/
